@@ -1,0 +1,50 @@
+//go:build verif
+
+// Contracts for govc (contract-based deductive verification); comment-only, compiled only with -tags verif.
+package statuschecker
+
+// ---- start-up reconciliation with the Agglayer (C13).
+// Scalars: xN = "is nil", xH = height, xID = certificate id, xE = status is InError.
+// latest Agglayer certificate = pending if there is one, else settled.
+
+//@ spec fn aggInconsistent(sN bool, sH int, sE bool, pN bool, pH int, pE bool) bool = !pN && ite(sN, !pE && pH != 0, (pH == sH && !sE) || (sH > pH && !sE))
+//@ spec fn ignorablePending(lN bool, sN bool, pN bool, pH int, pE bool) bool = lN && sN && !pN && pH > 0 && pE
+//@ spec fn latN(sN bool, pN bool) bool = sN && pN
+//@ spec fn latH(sH int, pN bool, pH int) int = ite(pN, sH, pH)
+//@ spec fn latID(sID Hash, pN bool, pID Hash) Hash = ite(pN, sID, pID)
+
+// the records contradict the Agglayer's: local without Agglayer record, Agglayer behind local,
+// Agglayer more than one height ahead, or same height with a different certificate that is not
+// a replacement of a local certificate in error.
+//@ spec fn contradicts(lN bool, lH int, lID Hash, lE bool, aN bool, aH int, aID Hash) bool = !lN && (aN || aH < lH || aH > lH + 1 || (aH == lH && aID != lID && !lE))
+
+//@ func (i *initialStatus) checkAgglayerConsistenceCerts
+//@   props C13
+//@   requires i != nil
+//@   ensures[consistency] (result != nil) == aggInconsistent(i.SettledCert == nil, i.SettledCert.Height, i.SettledCert.Status == agglayertypes.InError, i.PendingCert == nil, i.PendingCert.Height, i.PendingCert.Status == agglayertypes.InError)
+
+//@ func (i *initialStatus) getLatestAggLayerCert
+//@   props C13
+//@   requires i != nil
+//@   ensures[latest] result == ite(i.PendingCert == nil, i.SettledCert, i.PendingCert)
+
+//@ func (i *initialStatus) process
+//@   props C13
+//@   requires i != nil && i.log != nil
+//@   requires i.LocalCert != nil ==> i.LocalCert.Height < 18446744073709551615
+// statuses are the five declared values
+//@   requires i.LocalCert != nil ==> 0 <= i.LocalCert.Status && i.LocalCert.Status <= 4
+//@   requires i.PendingCert != nil ==> 0 <= i.PendingCert.Status && i.PendingCert.Status <= 4
+//@   requires i.SettledCert != nil ==> 0 <= i.SettledCert.Status && i.SettledCert.Status <= 4
+// an id determines its height (A8)
+//@   requires (i.LocalCert != nil && i.PendingCert != nil && i.LocalCert.CertificateID == i.PendingCert.CertificateID) ==> i.LocalCert.Height == i.PendingCert.Height
+//@   requires (i.LocalCert != nil && i.SettledCert != nil && i.LocalCert.CertificateID == i.SettledCert.CertificateID) ==> i.LocalCert.Height == i.SettledCert.Height
+//@   ensures[error-or-action] (result1 != nil) == (result0 == nil)
+//@   ensures[refuse-inconsistent-agglayer] aggInconsistent(i.SettledCert == nil, i.SettledCert.Height, i.SettledCert.Status == agglayertypes.InError, i.PendingCert == nil, i.PendingCert.Height, i.PendingCert.Status == agglayertypes.InError) ==> result1 != nil
+//@   ensures[refuse-contradiction] contradicts(i.LocalCert == nil, i.LocalCert.Height, i.LocalCert.CertificateID, i.LocalCert.Status == agglayertypes.InError, latN(i.SettledCert == nil, i.PendingCert == nil), latH(i.SettledCert.Height, i.PendingCert == nil, i.PendingCert.Height), latID(i.SettledCert.CertificateID, i.PendingCert == nil, i.PendingCert.CertificateID)) ==> result1 != nil
+//@   ensures[proceed-otherwise] (!aggInconsistent(i.SettledCert == nil, i.SettledCert.Height, i.SettledCert.Status == agglayertypes.InError, i.PendingCert == nil, i.PendingCert.Height, i.PendingCert.Status == agglayertypes.InError) && !contradicts(i.LocalCert == nil, i.LocalCert.Height, i.LocalCert.CertificateID, i.LocalCert.Status == agglayertypes.InError, latN(i.SettledCert == nil, i.PendingCert == nil), latH(i.SettledCert.Height, i.PendingCert == nil, i.PendingCert.Height), latID(i.SettledCert.CertificateID, i.PendingCert == nil, i.PendingCert.CertificateID))) ==> result1 == nil
+//@   ensures[nothing-to-do] (result1 == nil && result0.action == InitialStatusActionNone) ==> i.LocalCert == nil && result0.cert == nil && (latN(i.SettledCert == nil, i.PendingCert == nil) || ignorablePending(i.LocalCert == nil, i.SettledCert == nil, i.PendingCert == nil, i.PendingCert.Height, i.PendingCert.Status == agglayertypes.InError))
+//@   ensures[adopt-latest] (result1 == nil && result0.action != InitialStatusActionNone) ==> result0.cert != nil && result0.cert == ite(i.PendingCert == nil, i.SettledCert, i.PendingCert)
+//@   ensures[insert-when-missing] (result1 == nil && result0.action == InitialStatusActionInsertNewCert) ==> i.LocalCert == nil || result0.cert.Height == i.LocalCert.Height + 1 || (result0.cert.Height == i.LocalCert.Height && i.LocalCert.Status == agglayertypes.InError && result0.cert.CertificateID != i.LocalCert.CertificateID)
+//@   ensures[update-same-cert] (result1 == nil && result0.action == InitialStatusActionUpdateCurrentCert) ==> i.LocalCert != nil && result0.cert.CertificateID == i.LocalCert.CertificateID && result0.cert.Height == i.LocalCert.Height
+//@   ensures[action-range] result1 == nil ==> result0.action == InitialStatusActionNone || result0.action == InitialStatusActionInsertNewCert || result0.action == InitialStatusActionUpdateCurrentCert
